@@ -25,6 +25,7 @@ type C01Case struct {
 
 func genC01(t *rapid.T) C01Case {
 	prof := shape.FullProfile()
+	prof.AllowEmptyStructs = true
 	prof.LeafTypes = append(append([]string{}, prof.LeafTypes...), "Tagged", "*Tagged", "[]Tagged", "map[string]Tagged")
 	s := shape.Gen(t, prof)
 	T, err := s.Build()
